@@ -24,7 +24,10 @@ import psvlib
 SOLVERS = {0: "nnls_lawson_hanson(normaleq=1)", 1: "nnls_normal_block", 2: "nnls_normal_block_updown",
            3: "nnls_normal_block3", 4: "nnls_lawson_hanson(normaleq=0)"}
 KINDS = {0: "dense dyadic Gram", 1: "sparse dyadic Gram", 2: "degenerate (exact zeros, ties)", 3: "badly scaled 1e+-6",
-         4: "arbitrary doubles", 5: "large sparse", 6: "least-squares form", 7: "extremely scaled (D over 1e+-6), Cholesky-based solvers only"}
+         4: "arbitrary doubles", 5: "large sparse", 6: "least-squares form", 7: "extremely scaled (D over 1e+-6), Cholesky-based solvers only",
+         8: "dense integer Gram B'B+I, n 40..220 (many coefficients released at once)",
+         9: "staged release: dense signed-Laplacian+I core and a chain of small groups released together, n 30..220",
+         10: "overshoot: planted solution with a group of slightly negative components, all released first then constrained together, n 30..220"}
 
 
 EXPECTED_CONSTANTS = {"KKT_TOL": 1e-6, "max_iter": 120, "block3_factor": 1e5}
@@ -71,6 +74,34 @@ def sys_replay(sysline, xline=None, implline=None):
     return r
 
 
+def run_driver_parallel(ctx, drv_in, jobs=None):
+    """The driver's protocol is stateful only within one system (a SYS line and the X / B3 lines that follow it), and its
+    cost is quadratic in n for the dense systems: deal the systems round-robin to a few driver processes and put the
+    answers back in input order.  Returns the output lines or None."""
+    if not ctx.driver_ok(): return None
+    jobs = jobs or max(1, min(6, (os.cpu_count() or 2) // 2))
+    blocks = []
+    for line in open(drv_in):
+        if line.startswith("SYS") or not blocks: blocks.append([])
+        blocks[-1].append(line)
+    jobs = max(1, min(jobs, len(blocks)))
+    names = ["%s.part%d" % (drv_in, k) for k in range(jobs)]
+    files = [open(nm, "w") for nm in names]
+    for k, blk in enumerate(blocks): files[k % jobs].writelines(blk)
+    for f in files: f.close()
+    from concurrent.futures import ThreadPoolExecutor
+    with ThreadPoolExecutor(jobs) as ex:
+        oks = list(ex.map(lambda nm: ctx.run_driver("C11", nm, nm + ".out"), names))
+    if not all(oks): return None
+    outs = [open(nm + ".out").read().splitlines() for nm in names]
+    pos = [0] * jobs; olines = []
+    for k, blk in enumerate(blocks):
+        j = k % jobs
+        olines += outs[j][pos[j]:pos[j] + len(blk)]; pos[j] += len(blk)
+    if any(pos[j] != len(outs[j]) for j in range(jobs)): return []      # truncated / surplus output: the caller's length check fails
+    return olines
+
+
 def evaluate(ctx, consts, cases, impl, nref, acc, tag):
     """merge harness output into the driver input, run the driver, judge every line"""
     clines = open(cases).read().splitlines(); ilines = open(impl).read().splitlines()
@@ -90,11 +121,10 @@ def evaluate(ctx, consts, cases, impl, nref, acc, tag):
                     f.write("B3 %s %s %d\n" % (w[1], w[3], consts["max_iter"])); meta.append(("B3", c, i, cur))
             else:
                 meta.append(("FAIL", c, i, cur))
-    drv_out = drv_in + ".out"
     live = [m for m in meta if m[0] != "FAIL"]
-    if not ctx.driver_ok() or not ctx.run_driver("C11", drv_in, drv_out):
+    olines = run_driver_parallel(ctx, drv_in)
+    if olines is None:
         ctx.tie_ok = False; ctx.broken.append({"kind": "driver failed"}); return
-    olines = open(drv_out).read().splitlines()
     if len(olines) != len(live):
         ctx.tie_ok = False; ctx.broken.append({"kind": "driver output truncated", "want": len(live), "got": len(olines)}); return
     out_of = {}
@@ -154,6 +184,14 @@ def evaluate(ctx, consts, cases, impl, nref, acc, tag):
         if cap: acc["cap_exits"][name] = acc["cap_exits"].get(name, 0) + 1
         for key in ("walk", "boundary"):
             if solver == 3 and info.get(key, "0") != "0": acc["block3_" + key + "_cases"] += 1
+        if solver in (2, 3):
+            # measured coverage of modify_factor's row-by-row path (cholmod_rowadd / rowdel on the full-size factor):
+            # runs with at least one call / with a call that changed >= 2 rows at once
+            ru = acc["rowmod"].setdefault(name, {"runs_with_row_updates": 0, "runs_with_multirow_add": 0, "runs_with_multirow_delete": 0, "max_rows_in_one_call": 0})
+            if int(info.get("rowadd", "0")) + int(info.get("rowdel", "0")) > 0: ru["runs_with_row_updates"] += 1
+            if int(info.get("madd", "0")) > 0: ru["runs_with_multirow_add"] += 1
+            if int(info.get("mdel", "0")) > 0: ru["runs_with_multirow_delete"] += 1
+            ru["max_rows_in_one_call"] = max(ru["max_rows_in_one_call"], int(info.get("maxrows", "0")))
         if o.get("finite") != "1":
             ctx.report("%s:nonfinite" % name, sys_replay(cur, c, i), "%s returned a non-finite vector on a certified SPD system (n=%d, %s)" % (name, n, KINDS[kind])); continue
         rel = float(o.get("rel", "nan")); acc["worst_rel"][name] = max(acc["worst_rel"].get(name, 0.0), rel if o.get("kkt") == "1" else 0.0)
@@ -179,14 +217,14 @@ def evaluate(ctx, consts, cases, impl, nref, acc, tag):
 def new_acc():
     return {"systems": 0, "evaluations": 0, "not_spd_skipped": 0, "by_solver": {}, "cap_exits": {}, "cap_nonkkt": {}, "hang_retries": 0,
             "worst_rel": {}, "distinct": set(), "b3_runs": 0, "b3_exit_mismatch": 0, "b3_trace_equal": 0, "b3_trace_diff": 0,
-            "b3_trace_diff_by_kind": {}, "b3_trace_diff_nondegenerate": 0, "b3_trace_diff_samples": [], "b3_model_walks": 0, "block3_walk_cases": 0, "block3_boundary_cases": 0}
+            "b3_trace_diff_by_kind": {}, "b3_trace_diff_nondegenerate": 0, "b3_trace_diff_samples": [], "b3_model_walks": 0, "block3_walk_cases": 0, "block3_boundary_cases": 0, "rowmod": {}}
 
 
 def run(ctx):
     ctx.audit()
     consts = read_constants(ctx)
     if consts is None: return
-    nsmall, nlarge = (420, 9) if ctx.tier == "quick" else (6000, 60)
+    nsmall, nlarge, nmed = (420, 9, 128) if ctx.tier == "quick" else (6000, 60, 900)
     modes = ["shipped"] if ctx.tier == "quick" else ["shipped", "san"]
     acc = new_acc(); dist = {}
     for mode in modes:
@@ -194,8 +232,8 @@ def run(ctx):
         if not exe:
             ctx.tie_ok = False; ctx.broken.append({"kind": "harness build failed", "mode": mode}); continue
         base = os.path.join(ctx.scratch, "c11_" + mode)
-        ns, nl = (nsmall, nlarge) if mode == "shipped" else (nsmall // 4, nlarge // 4)
-        rc, out, err = ctx.run([exe, str(ns), str(nl), base + ".in", base + ".impl", base + ".stats", repr(consts["KKT_TOL"]), "20"],
+        ns, nl, nm = (nsmall, nlarge, nmed) if mode == "shipped" else (nsmall // 4, nlarge // 4, nmed // 4)
+        rc, out, err = ctx.run([exe, str(ns), str(nl), base + ".in", base + ".impl", base + ".stats", repr(consts["KKT_TOL"]), "20", str(nm)],
                                timeout=3000, env={"OMP_NUM_THREADS": "1", "GOTO_NUM_THREADS": "1", "PSV_B3_FACTOR": repr(consts["block3_factor"])})
         if rc != 0:
             ctx.tie_ok = False
